@@ -50,7 +50,7 @@ def sh(cmd, cwd=None, timeout=3600):
 
 def build_all():
     """incremental build of the Coq development and of the extracted driver"""
-    rc, out = sh("make -C %s all 2>&1" % VERIF, timeout=7200)
+    rc, out = sh("timeout 3000 make -C %s all 2>&1" % VERIF, timeout=3600)
     return rc == 0, out
 
 
